@@ -208,8 +208,10 @@ class P11(H.Projector):
     if af_lib.is_arg_factory_partial(p) and hasattr(func, 'func'):   # arg_factory.partial wraps the callable
       func = func.func
     fid = H.fn_id_of(func)
-    names = list(inspect.signature(func).parameters)
-    bound = {names[j]: a for j, a in enumerate(args)}
+    params = [q for q in inspect.signature(func).parameters.values()
+              if q.kind in (q.POSITIONAL_ONLY, q.POSITIONAL_OR_KEYWORD)]
+    # positional values bind to the named positional parameters, the rest (to *args) keep their position
+    bound = {(params[j].name if j < len(params) else j): a for j, a in enumerate(args)}
     bound.update(kws)
     items = []
     for nm in sorted(bound, key=lambda n: str(H._slot_of(n))):  # pylint: disable=protected-access
